@@ -1,5 +1,7 @@
 import Gedcom.Model.Decoder
 import Gedcom.Generated.Tags
+import Gedcom.Model.Regex
+import Gedcom.Generated.LineRegex
 import Driver.Util
 import Driver.Tree
 namespace Driver
@@ -50,6 +52,29 @@ def handleDecoder (cmd : String) (rest : List String) : Option String :=
     -- legal <forest> : is the forest in the domain of C01.decode_encode (Dec.legalDocB)?
     match parseForest rest with
     | some (f, []) => some (b2s (legalDocB ⟨false, f⟩))
+    | _ => some "bad-op"
+  | "regex" =>
+    -- regex <hex line> : the source's line pattern (translated on every run) through the
+    -- backtracking semantics; answer "no" or the four submatches
+    match rest with
+    | [h] =>
+      match fromHex h with
+      | some s =>
+        match Regex.find Generated.lineRegex s with
+        | none => some "no"
+        | some c => some s!"{toHex (c 1)} {toHex (c 2)} {toHex (c 3)} {toHex (c 4)}"
+      | none => some "bad-op"
+    | _ => some "bad-op"
+  | "parseline" =>
+    -- parseline <hex line> : the model's deterministic parser
+    match rest with
+    | [h] =>
+      match fromHex h with
+      | some s =>
+        match parseLine s with
+        | none => some "no"
+        | some l => some s!"{l.level} {toHex l.ptr} {toHex l.tag} {toHex l.value}"
+      | none => some "bad-op"
     | _ => some "bad-op"
   | "trim" =>
     match rest with
